@@ -2,7 +2,7 @@
 import os, json, re, itertools, concurrent.futures
 import vlib
 
-PROP_FILES = ['Properties/C06']
+PROP_FILES = ['Properties/C06', 'Properties/C06_bridge']
 EXTRA_OBLIGATION_FILES = ['Proofs/X25519']
 TRUSTED = [
     'Coq 8.16.1 kernel incl. vm_compute (no native_compute); every C06 theorem is Closed under the global context',
@@ -23,7 +23,7 @@ TRUSTED = [
 ]
 ASSUMPTIONS = [
     'UID of exactly 16 bytes; proxy-method name of 1..12 bytes without leading/trailing NUL (both guards are exact: C06_method_trailing_nul, '
-    'C06_method_13_truncated, C06_uid_17_spills)',
+    'C06_method_13_truncated, C06_uid_18_spills)',
     'timestamps below 2^62 s for C06_window (beyond that time.Unix wraps; the model reproduces the wrap, the correspondence samples it)',
     'the client\'s clock is inside the window AFTER truncation to whole seconds (Unix()); an offset in (-180 s, -179 s) can fall outside '
     '(C06_truncation_edge); -179 s <= offset < +180 s always suffices (C06_offset_suffices)',
